@@ -1501,12 +1501,22 @@ def run(ctx):
                     "TLC", "harness/replay_nal.c (command interpreter, run codec)",
                     "gcc AddressSanitizer / UndefinedBehaviorSanitizer",
                     "checks/c17.py generators (their frames and encoded fields are re-checked by Nal_Trace at every Reset)"]
+    # stage 3: the H.265 framer (checks/c17_h265.py)
+    try:
+        from checks import c17_h265
+    except ImportError:
+        c17_h265 = None
+    if c17_h265 is not None:
+        c17_h265.run_part(ctx)
 
 
 def replay(ctx, rp):
     """bin/check C17 --replay file: re-run the stored script."""
     deep_java_stack()
     r = rp["replay"]
+    if str(r.get("meta", {}).get("k", "")).startswith("h265"):
+        from checks import c17_h265
+        return c17_h265.replay(ctx, rp)
     if r["meta"]["k"] in ("h264", "h264raw"):
         binp = ctx.cc("replay_nal_h264f_asan", H264_SRCS, flags=SHIM_FLAGS, san="asan")
     else:
